@@ -216,13 +216,13 @@ func pick(rt *rapid.T, label string, xs []string) string {
 // bad verb / as an unexported field).
 var pointerKinds = map[string]bool{"pstr": true, "pint": true, "chan": true, "func": true, "uptr": true, "pislice": true, "pmsi": true,
 	"pstructA": true, "pstructB": true, "structC": true, "pstringer": true, "perr": true, "stderr": true, "errwrap": true, "fmter": true,
-	"errfmter": true, "psafefmt": true, "errsafefmt": true, "psb": true, "pstringer!": true, "perr!": true, "rv": true, "rvfield": true, "rvfieldr": true, "rviface": true, "pregstruct": true, "pregslice": true}
+	"errfmter": true, "psafefmt": true, "errsafefmt": true, "psb": true, "pstringer!": true, "perr!": true, "rv": true, "rvfield": true, "rvfieldr": true, "rviface": true, "pregstruct": true, "pregslice": true, "mup": true}
 
 // pickK picks a kind, avoiding pointer kinds if the configuration says so.
 // errorKinds implement error.
 var errorKinds = map[string]bool{"err": true, "perr": true, "stderr": true, "serr": true, "ierr": true, "errwrap": true, "errwrapv": true,
 	"errstringer": true, "errfmter": true, "sverr": true, "errsafefmt": true, "errsafemsg": true, "err!": true, "perr!": true, "nilerr": true,
-	"errslice": true, "structB": true, "pstructB": true, "byteerrslice": true, "sliceerr": true, "nilsliceerr": true}
+	"errslice": true, "structB": true, "pstructB": true, "byteerrslice": true, "sliceerr": true, "nilsliceerr": true, "errgostr": true}
 
 func (c *valConfig) pickK(rt *rapid.T, label string, xs []string) string {
 	if c.noErrors {
@@ -371,6 +371,37 @@ func (c *valConfig) genVal(rt *rapid.T, depth int, pub bool) *Val {
 					v.Sub = []*Val{c.genVal(rt, depth+1, pub)}
 				}
 				return v
+			}
+		case 1, 9:
+			k := "structsv"
+			if rapid.IntRange(0, 2).Draw(rt, "smk") == 0 {
+				k = "structm"
+			}
+			v := c.leafS(rt, k, pub, false)
+			li := c.leafI(rt, "int", pub)
+			v.I, v.J = li.I, li.J
+			if v.HasT && !li.HasT {
+				v.J = v.I
+			}
+			return v
+		case 2:
+			if !c.noErrors {
+				return c.leafS(rt, "errgostr", pub, false)
+			}
+		case 4:
+			if rapid.IntRange(0, 3).Draw(rt, "ngv") == 0 {
+				return &Val{K: "nilgetvalue"}
+			}
+			v := c.leafS(rt, "getvalue", pub, false)
+			li := c.leafI(rt, "int", pub)
+			v.I, v.J = li.I, li.J
+			if v.HasT && !li.HasT {
+				v.J = v.I
+			}
+			return v
+		case 6:
+			if !c.noPointers {
+				return c.leafI(rt, "mup", pub)
 			}
 		case 5:
 			v := c.leafS(rt, "structblank", pub, false)
@@ -623,11 +654,11 @@ func (c *valConfig) varyOps(rt *rapid.T, ops []*Op) { c.varyOpsEq(rt, ops, false
 
 func (c *valConfig) varyOpsEq(rt *rapid.T, ops []*Op, eqBytes bool) {
 	for _, op := range ops {
-		if eqBytes && op.K != "UnsafeString" && op.K != "UnsafeBytes" && op.K != "Write" && op.K != "WriteString" {
+		if eqBytes && op.K != "UnsafeString" && op.K != "UnsafeBytes" && op.K != "Write" && op.K != "WriteString" && op.K != "IOCopy" && op.K != "StdFprint" {
 			continue
 		}
 		switch op.K {
-		case "UnsafeString", "UnsafeBytes", "Write", "WriteString":
+		case "UnsafeString", "UnsafeBytes", "Write", "WriteString", "IOCopy", "StdFprint":
 			op.T = vary(rt, "ot", op.S, c.sameLen, eqBytes)
 			op.HasT = true
 		case "UnsafeRune", "WriteRune":
